@@ -620,7 +620,7 @@ def chain_cases(ctx, rnd, cs, plan):
         for ci, ch in enumerate(picks):
             tree = build_tree(ch)
             for e in range(nev):
-                ed = edge and e % 2 == 1
+                ed = edge and (e % 2 == 1 or (nev == 1 and ci % 2 == 1))
                 mass = gen_masses(rnd, tree, ed)
                 cost, phi = gen_angles(rnd, len(list(ch)), ed)
                 cid = "c%d_%d_%d" % (nf, ci, e)
@@ -762,9 +762,9 @@ def run(ctx):
     common.theorem_stage(ctx)
     cs = Cases(ctx)
     quick = ctx.tier == "quick"
-    lorentz_cases(ctx, rnd, cs, 7 if quick else 140)
+    lorentz_cases(ctx, rnd, cs, 7 if quick else 70)
     ctx.log("lorentz goals", len(cs.items))
-    plan = [(3, 3, 2, True), (4, 2, 1, False), (5, 1, 1, False)] if quick else [(3, 3, 8, True), (4, 15, 4, True), (5, 40, 2, True)]
+    plan = [(3, 3, 2, True), (4, 2, 1, False), (5, 1, 1, False)] if quick else [(3, 3, 6, True), (4, 15, 2, True), (5, 20, 1, True)]
     pyfails = chain_cases(ctx, rnd, cs, plan)
     ctx.log("chain goals", len(cs.items))
     pyfails += dalitz_cases(ctx, rnd, cs, 8 if quick else 80)
